@@ -63,6 +63,9 @@ def judge(rec):
     if not rec['accepted']:
         return None
     res = rec['result']
+    if any(d.get('names_variant') for d in rec['operands']):
+        y = [(k, v[1]) for k, v in res.items() if isinstance(v[1], float)]
+        return ('the index names of the operands do not match, yet the equation is accepted and element [%s] evaluates to %r' % (y[0][0], y[0][1])) if y else None
     if not ok:
         y = [(k, v[1]) for k, v in res.items() if isinstance(v[1], float)]
         return ('operand shapes %s do not match, yet the equation is accepted and element [%s] evaluates to %r' % (rec['kinds'], y[0][0], y[0][1])) if y else None
